@@ -204,7 +204,8 @@ func (x *lc) decodeInto(d decoder, recv any, data []byte) (n int64, o outcome) {
 // that never terminates would take the whole process down with a stack overflow.
 func (x *lc) decodeFault(d decoder, recv any, data []byte) (n int64, o outcome) {
 	a := apiOf(recv)
-	if d.name == "UnmarshalBinary" && a.rf != nil {
+	// (only where UnmarshalBinary and ReadFrom speak the same format, i.e. MarshalBinary == WriteTo bytes)
+	if d.name == "UnmarshalBinary" && a.rf != nil && x.o.binOK && x.o.wbinOK && bytes.Equal(x.o.bin, x.o.wbin) {
 		probe := freshLike(recv)
 		o = guard(func() (err error) {
 			_, err = probe.(io.ReaderFrom).ReadFrom(&watchReader{b: buffer.NewBuffer(data)})
@@ -611,7 +612,10 @@ func famStream(x *lc) {
 	// plain io.Reader: the library reads ahead through its own bufio.Reader, only the returned count is checked
 	recv := freshLike(x.o.obj)
 	var n int64
-	out := guard(func() (err error) { n, err = recv.(io.ReaderFrom).ReadFrom(newChunkReader(want, chunking{zeroAt: -1})); return })
+	out := guard(func() (err error) {
+		n, err = recv.(io.ReaderFrom).ReadFrom(newChunkReader(want, chunking{zeroAt: -1}))
+		return
+	})
 	if out.panicked != nil {
 		x.failPanic("stream", out, "first object from a plain io.Reader")
 	} else if out.err != nil || n != int64(len(x.o.bin)) {
@@ -687,7 +691,7 @@ func famFragmentation(x *lc) {
 		return
 	}
 	run := func(bs int, ch chunking) result {
-		return runJob(job{Seed: x.seed, Entry: x.e.name, Vi: x.vi, Op: "frag", Buf: bs, Chunk: ch})
+		return runJob(fragJob(x, bs, ch))
 	}
 	bad := func(r result) bool { return !r.ok() || r.VKind != "" }
 	r := run(bs, ch)
@@ -723,6 +727,6 @@ func famFragmentation(x *lc) {
 	case r.Err != "":
 		what = "error: " + r.Err
 	}
-	x.c.Fail(sig("fragmentation", x.e.name+".ReadFrom", env), "%s [%s] (%d valid bytes) read through %s with chunking %s (zero-read at %d): %s",
+	x.c.Fail(sig("fragmentation", declName(x.o.obj, "ReadFrom"), env), "%s [%s] (%d valid bytes) read through %s with chunking %s (zero-read at %d): %s",
 		x.e.name, x.e.vals[x.vi].label, len(x.o.wbin), bufName(bs), ch.name, ch.zeroAt, what)
 }
